@@ -693,9 +693,9 @@ def run_shard(spec, ctx):
     # measured: ~5.5 ms CPU per case (4 renders + Hypothesis draw); quick 16 x 5000, thorough 16 x 80000 in batches
     strat = case_strategy(ctx.tier)
     for b in range(ctx.pick(1, 8)):
-        core.hyp_shard(strat, check_case, ctx, ctx.pick(5000, 10000), rec=rec, tag="c34-%d" % b)
         if rec.violations:
             break
+        core.hyp_shard(strat, check_case, ctx, ctx.pick(5000, 10000), rec=rec, tag="c34-%d" % b)
     return rec
 
 
